@@ -38,7 +38,7 @@ XRELS = ["equal", "differ", "lossy"]
 
 class C13(tk.TableProp):
     id = "C13"
-    lean_modules = ["VivModel.Props.C13"]
+    lean_modules = ["VivModel.Props.C13", "VivModel.Props.C13Src"]
     technique = ("Lean 4 proof (labels = [n, n+k); induction over arbitrary histories with the invariant rows = range n: no "
                  "label is ever reused; existing cells preserved; zero creation; columns fixed outside initial creation; "
                  "conflicting initial data rejected) + differential correspondence of creation histories in real simulations")
